@@ -889,14 +889,87 @@ func c01(c *core.Ctx) {
 	}
 
 	// ---- C01.flush
-	rF := c.Rule("C01.flush", "WriteEntry/WriteEntries call flushLocked on the branch where Add returned true; Sync and Close call flushLocked before they write the final header", 4)
+	rQ := c.Rule("C01.fifo", "every block appended to the file is produced by the write buffer's Flush (entries leave in the order they were added): the BlockHeader whose serialized form is written comes from WriteBuffer.Flush in the writing function, or is a parameter that every caller fills from WriteBuffer.Flush", 1)
+	{
+		bufFlushFn := c.Fn(pkgV2 + ".WriteBuffer.Flush")
+		cgq := c.CG()
+		fromFlush := func(f *core.Func, obj types.Object) bool {
+			if obj == nil {
+				return false
+			}
+			def := localDefMulti(f.Info(), f.Decl.Body, obj)
+			if def == nil {
+				return false
+			}
+			call, ok := core.Unparen(def).(*ast.CallExpr)
+			return ok && core.IsWsCallTo(f.Info(), call, bufFlushFn.Key)
+		}
+		for _, w := range v2BlockWriters(c) {
+			info := w.Info()
+			sig := w.Obj.Type().(*types.Signature)
+			core.Calls(w.Decl.Body, false, func(call *ast.CallExpr) {
+				if !core.IsCallTo(info, call, "os.File.Write") || len(call.Args) != 1 {
+					return
+				}
+				ac, ok := core.Unparen(call.Args[0]).(*ast.CallExpr)
+				if !ok || !core.IsWsCallTo(info, ac, pkgV2+".BlockHeader.Serialize") {
+					return
+				}
+				hdr := core.ObjOf(info, core.RecvExpr(ac))
+				construct := w.Key + ":block-source"
+				if fromFlush(w, hdr) {
+					rQ.Ok(construct, call.Pos(), "block comes from WriteBuffer.Flush")
+					return
+				}
+				pi := -1
+				for i := 0; i < sig.Params().Len(); i++ {
+					if sig.Params().At(i) == hdr {
+						pi = i
+					}
+				}
+				if pi < 0 {
+					rQ.Bad(construct, call.Pos(), "a block is appended that does not come from the write buffer's Flush: entries buffered earlier reach the file after it and replay no longer yields the last write")
+					return
+				}
+				callers := cgq.In[w]
+				if len(callers) == 0 {
+					rQ.Bad(construct, call.Pos(), "block writer without callers")
+				}
+				for _, s := range callers {
+					okc := s.Caller != nil && pi < len(s.Call.Args) && fromFlush(s.Caller, core.ObjOf(s.Caller.Info(), s.Call.Args[pi]))
+					key := "?"
+					if s.Caller != nil {
+						key = s.Caller.Key
+						c.Touch(s.Caller)
+					}
+					rQ.Check(okc, key+"->"+w.Obj.Name()+":block-source", s.Call.Pos(), "block comes from WriteBuffer.Flush", "a block is appended that does not come from the write buffer's Flush: entries buffered earlier reach the file after it and replay no longer yields the last write")
+				}
+			})
+		}
+	}
+
+	rF := c.Rule("C01.flush", "wherever an entry is added to the write buffer, the branch on which Add reported the buffer full calls a function that flushes it (reaches WriteBuffer.Flush); the public WriteEntry/WriteEntries reach such an Add site; Sync and Close flush successfully before they write the final header", 4)
 	flushKey := pkgV2 + ".FileWriter.flushLocked"
-	for _, k := range []string{pkgV2 + ".FileWriter.WriteEntry", pkgV2 + ".FileWriter.WriteEntries"} {
-		f := c.Fn(k)
+	cgF := c.CG()
+	bufFlush := c.Fn(pkgV2 + ".WriteBuffer.Flush")
+	flushers := cgF.ReachersOf(bufFlush)
+	addSiteFuncs := map[*core.Func]bool{}
+	for _, f := range p.FuncsIn(pkgV2) {
+		if f.Decl.Body == nil {
+			continue
+		}
 		info := f.Info()
-		fl := core.NewFlow(p, info, f.Decl.Body)
-		ok := false
-		_ = fl
+		var adds []*ast.CallExpr
+		core.Calls(f.Decl.Body, true, func(call *ast.CallExpr) {
+			if core.IsWsCallTo(info, call, addFn.Key) {
+				adds = append(adds, call)
+			}
+		})
+		if len(adds) == 0 {
+			continue
+		}
+		addSiteFuncs[f] = true
+		c.Touch(f)
 		isAddResult := func(ft core.Fact, truth bool) bool {
 			if ft.Truth != truth {
 				return false
@@ -914,8 +987,10 @@ func c01(c *core.Ctx) {
 			}
 			return false
 		}
-		core.Calls(f.Decl.Body, false, func(call *ast.CallExpr) {
-			if !core.IsWsCallTo(info, call, flushKey) {
+		ok := false
+		core.Calls(f.Decl.Body, true, func(call *ast.CallExpr) {
+			t := p.ByObj[core.Callee(info, call)]
+			if t == nil || !(t == bufFlush || flushers[t]) {
 				return
 			}
 			// innermost if statement whose body holds the flush: its condition being false must imply
@@ -934,7 +1009,17 @@ func c01(c *core.Ctx) {
 				ok = true
 			}
 		})
-		rF.Check(ok, k+":flush-when-full", f.Decl.Pos(), "flushLocked on the Add()==true branch", "the buffer is not flushed when Add reports it full: blocks grow past the configured size and the 16-bit entry count")
+		rF.Check(ok, f.Key+":flush-when-full", adds[0].Pos(), "flush on the Add()==true branch", "the buffer is not flushed when Add reports it full: blocks grow past the configured size and the 16-bit entry count")
+	}
+	for _, k := range []string{pkgV2 + ".FileWriter.WriteEntry", pkgV2 + ".FileWriter.WriteEntries"} {
+		f := c.Fn(k)
+		reaches := addSiteFuncs[f]
+		for g := range addSiteFuncs {
+			if cgF.ReachersOf(g)[f] {
+				reaches = true
+			}
+		}
+		rF.Check(reaches, k+":reaches-buffer", f.Decl.Pos(), "entries go through the write buffer", "the public write entry point does not add its entries to the write buffer")
 	}
 	for _, k := range []string{pkgV2 + ".FileWriter.Sync", pkgV2 + ".FileWriter.Close"} {
 		f := c.Fn(k)
